@@ -13,9 +13,17 @@
       [check_ack] is true iff, at every step, no entry of any cursor decreased or vanished; a
       header of another topic is answered [InvalidTopic] with all cursors unchanged; an accepted
       header moves exactly entry (author, log) of the cursors carrying the acting instance's
-      name to max(old, seq_num) and nothing else. *)
+      name to max(old, seq_num) and nothing else.
+
+    - [conc]: k acks in flight at once through ONE [Acked] (Model/AckConc.v), a label list
+      deciding which call takes its next step.  The observation is the persisted cursor after
+      the sequential initial acks, after every label and after all calls have returned, plus each
+      call's result.  [check_conc] is true iff no entry of the cursor ever decreased or vanished
+      along that sequence, every result is [Ok] exactly for headers of the instance's topic, and
+      every entry of the final cursor is the maximum of its initial value and the accepted acks
+      of that log. *)
 From Coq Require Import List Arith NArith Bool String.
-From PV Require Import Model.Heights Model.Cursor Oracle.C06 Lib.Show.
+From PV Require Import Model.Heights Model.Cursor Model.AckConc Oracle.C06 Lib.Show.
 Import ListNotations.
 
 (** [x <= y] on optional heights; an existing entry may not vanish. *)
@@ -119,3 +127,69 @@ Definition show_obs (o : obs) : string :=
 
 Definition model_line_ack (insts : list acked) (ops : list (nat * header)) : string :=
   join " ; " (map show_obs (run_acks insts [] ops)).
+
+(** ** concurrent acks through one instance *)
+
+Definition heights_leb (prev cur : heights) : bool :=
+  forallb (fun q => ole (lookup2 prev (fst q) (snd q)) (lookup2 cur (fst q) (snd q))) (pairs prev).
+
+Fixpoint chain_leb (prev : heights) (rest : list heights) : bool :=
+  match rest with
+  | [] => true
+  | c :: r => wf_heightsb c && heights_leb prev c && chain_leb c r
+  end.
+
+Definition conc_expected (k : acked) (hs : list header) (init : heights) (a l : N) : option N :=
+  fold_left (fun acc h =>
+               if topic_ok k h && N.eqb a (hauthor h) && N.eqb l (hlog h) then omax acc (Some (hseq h)) else acc)
+            hs (lookup2 init a l).
+
+Definition check_conc (k : acked) (hs : list header) (init : heights) (steps : list heights)
+           (res : list (option ack_result)) (final : heights) : bool :=
+  let ks := (pairs init ++ map (fun h => (hauthor h, hlog h)) hs ++ pairs final)%list in
+  chain_leb init (steps ++ [final]) &&
+  Nat.eqb (List.length res) (List.length hs) &&
+  forallb (fun hr => match snd hr with
+                     | Some r => res_eqb r (if topic_ok k (fst hr) then AckOk else AckInvalidTopic)
+                     | None => false
+                     end) (combine hs res) &&
+  forallb (fun q => oN_eqb (lookup2 final (fst q) (snd q)) (conc_expected k hs init (fst q) (snd q))) ks.
+
+Definition pc_letter (p : pc cursor) : string :=
+  match p with
+  | PIdle => "I" | PWait => "W" | PHeld => "H" | PRead _ => "R" | PBegun _ => "B" | PWritten => "N"
+  | PDone true => "K" | PDone false => "X"
+  end.
+
+Definition conc_letters (n : nat) (s : conc_state) : string :=
+  concat "" (map (fun i => pc_letter (m_pc s i)) (seq 0 n)).
+
+Fixpoint conc_trace (k : acked) (hs : list header) (s : conc_state) (sched : list nat) : list conc_state :=
+  match sched with
+  | [] => []
+  | i :: r => let s1 := conc_step k hs s i in s1 :: conc_trace k hs s1 r
+  end.
+
+Definition conc_init (k : acked) (init : list header) : cstore := ack_all [] (map (pair k) init).
+
+Definition show_cursor_of (k : acked) (s : cstore) : string :=
+  "[" ++ show_heights (cstate (acked_cursor s k)) ++ "]".
+
+Definition conc_result (p : pc cursor) : string :=
+  match p with PDone true => "ok" | PDone false => "InvalidTopic" | _ => "-" end.
+
+(** Enough labels to let every call return from any reachable state: each pass over
+    [serial_sched] completes at least the call that holds the permit. *)
+Definition drain_sched (n : nat) : list nat := List.concat (repeat (serial_sched n) (S n)).
+
+(** The model's line: cursor after the initial acks; letters + cursor after every label; after
+    the labels every call is run to its end (any order gives the same store:
+    Proofs/AckConc.v [concurrent_acks_max]); results; final cursor. *)
+Definition model_line_conc (k : acked) (init hs : list header) (sched : list nat) : string :=
+  let s0 := conc_init k init in
+  let n := List.length hs in
+  let fin := conc_run k hs s0 (sched ++ drain_sched n) in
+  join " ; " (show_cursor_of k s0 ::
+              map (fun s => conc_letters n s ++ " " ++ show_cursor_of k (m_store s)) (conc_trace k hs (m_init s0) sched))
+  ++ " | " ++ join " " (map (fun i => conc_result (m_pc fin i)) (seq 0 n))
+  ++ " | " ++ show_cursor_of k (m_store fin).
